@@ -9,9 +9,10 @@ What is modelled, function by function (the code *as it is*):
                                                     `shift >= w` check, then `result |= (byte&0x7f) << shift`
                                                     with the bits shifted out of the `w`-bit register lost,
                                                     then the continuation-bit test, then `shift += 7`)
-* `zigzag_encode_i*` / `zigzag_decode_i*`         → `zigzagEnc` / `zigzagDec` (arithmetic on `Int`; the
-                                                    two's-complement bit trick itself is validated by the
-                                                    correspondence, exhaustively at 16 bits)
+* `zigzag_encode_i*` / `zigzag_decode_i*`         → `zigzagEncBits` / `zigzagDecBits` (the two's-complement bit
+                                                    trick, literally) = `zigzagEnc` / `zigzagDec` (arithmetic
+                                                    on `Int`, used by `encode`/`decode`; equality proved for
+                                                    every width in `Lemmas/CodecVarint`)
 * `emit_u8/i8/bool`, `read_u8/i8/bool`            → one raw byte; `read_bool` is `byte != 0`
 * `emit_usize/isize`                              → as `u64`/`i64` (64-bit platform; `try_from` cannot fail)
 * `emit_char`/`read_char`                         → `u32` varint + `char::from_u32` range check
@@ -28,10 +29,11 @@ What is modelled, function by function (the code *as it is*):
     nanos, `Duration::new` carries nanos ≥ 10⁹ into the seconds and panics on overflow), PhantomData /
     RangeFull / `()` (`unit`), BitVec (feature `bitvec`, see below).
 * BitVec: `encode` writes the length and then the storage words through their own `Encode` (varints for
-  16/32/64-bit/usize words).  `decode false` is the decoder as it is: it reads `⌈len/8⌉` *raw bytes* and
-  `Write`s them into a fresh vector (`bitvec::field::io`: every byte is `store_be`d into the next 8 bits,
-  i.e. little-endian word assembly for `Lsb0`, big-endian for `Msb0`), then truncates (finding F7).
-  `decode true` is the repaired decoder (read `⌈len/bits⌉` words through their own `Decode`).
+  16/32/64-bit/usize words).  `decode true` is the decoder as it is (since /repo commit e089897, which fixed
+  finding F7): it reads `⌈len/bits⌉` words through their own `Decode`, `try_from_vec`, `truncate`.
+  `decode false` is the decoder *before* that commit, kept as a historical witness: it read `⌈len/8⌉` raw
+  bytes and `Write`-d them into a fresh vector (`bitvec::field::io`: every byte is `store_be`d into the next
+  8 bits, i.e. little-endian word assembly for `Lsb0`, big-endian for `Msb0`), then truncated.
 * `storage/src/intern.rs  impl Encode/Decode for Interned<T>`, `WiredInterned` → `encodeItems` /
   `decodeItems` over a stream of plain values and handles (section `Interned` below).
 
@@ -151,6 +153,14 @@ def zigzagEnc (i : Int) : Nat :=
 def zigzagDec (n : Nat) : Int :=
   if n % 2 = 0 then ((n / 2 : Nat) : Int) else -((n / 2 : Nat) : Int) - 1
 
+/-- `zigzag_encode_i*` literally, on a `w`-bit register: `((value << 1) ^ (value >> (BITS-1))) as u*`
+    (`>>` on a signed integer is the arithmetic shift).  `Lemmas/CodecVarint.zigzagEncBits_toNat` shows it
+    is `zigzagEnc` for every width. -/
+def zigzagEncBits (w : Nat) (x : BitVec w) : BitVec w := (x <<< 1) ^^^ (x.sshiftRight (w - 1))
+
+/-- `zigzag_decode_i*` literally: `((value >> 1) as i*) ^ (-((value & 1) as i*))`. -/
+def zigzagDecBits (w : Nat) (u : BitVec w) : BitVec w := (u >>> 1) ^^^ (-(u &&& 1#w))
+
 /-- `emit_u8` is a raw byte, every wider unsigned integer a varint. -/
 def encUInt (w : IntW) (n : Nat) : Bytes :=
   match w with
@@ -244,7 +254,7 @@ def encWords (w : IntW) : List Nat → Bytes
   | [] => []
   | x :: xs => encUInt w x ++ encWords w xs
 
-/-- Repaired decoder: `n` storage words through their own `Decode`. -/
+/-- The decoder as it is (since e089897): `n` storage words through their own `Decode`. -/
 def readWords (w : IntW) : Nat → Bytes → R[List Nat]
   | 0, bs => .ok ([], bs)
   | n + 1, bs => do
@@ -255,7 +265,7 @@ def readWords (w : IntW) : Nat → Bytes → R[List Nat]
 /-- Big-endian assembly of a chunk of bytes. -/
 def fromBE (bs : Bytes) : Nat := fromLE bs.reverse
 
-/-- As-is decoder: `BitVec::write` of the raw bytes.  Byte `j` lands in word `j / (bits/8)`;
+/-- Historical decoder (before e089897): `BitVec::write` of the raw bytes.  Byte `j` lands in word `j / (bits/8)`;
     `Lsb0` assembles the chunk little-endian, `Msb0` big-endian; missing bytes are the `false`
     bits of `resize`.  `n` is the number of storage words (`⌈len/bits⌉`). -/
 def assembleWords (w : IntW) (msb : Bool) : Nat → Bytes → List Nat
@@ -421,7 +431,8 @@ def decodeMany (f : Bytes → R[Val]) : Nat → Bytes → R[ValList]
     pure (.cons v vs, bs)
 
 mutual
-  /-- `impl Decode for …` composed with `PostcardDecoder`.  `fixF7 = false` is the code as it is. -/
+  /-- `impl Decode for …` composed with `PostcardDecoder`.  `fixF7 = true` is the code as it is;
+      `fixF7 = false` the BitVec decoder before /repo commit e089897 (finding F7). -/
   def decode (fixF7 : Bool) : Ty → Bytes → R[Val]
     | .uint w, bs => do let (n, bs) ← decUInt w bs; pure (.nat n, bs)
     | .sint w, bs => do let (i, bs) ← decSInt w bs; pure (.int i, bs)
@@ -513,7 +524,7 @@ def encodeAll : List (Ty × Val) → Bytes
   | (t, v) :: tvs => encode t v ++ encodeAll tvs
 
 mutual
-  /-- No BitVec with a store wider than a byte occurs in the type (the as-is decoder is right there). -/
+  /-- No BitVec with a store wider than a byte occurs in the type (the pre-e089897 decoder was right there). -/
   def Ty.noWideBitvec : Ty → Bool
     | .option t => t.noWideBitvec
     | .result t e => t.noWideBitvec && e.noWideBitvec
